@@ -69,6 +69,78 @@ CHECKS = {
               "the listed ones. An independent Python encoder written from the RFCs (all handshake messages, 30+ extension "
               "classes, SSL 2.0) is compared byte for byte with compose() of generated objects and its output parsed back."),
         design='§6 C06', note=CLS_NOTE + " The Spec encoders are a reading of the RFCs (trusted)."),
+    'C07': dict(
+        technique='Lean 4 proof that the SSH model composers equal an RFC-level spec encoder and that the parsers invert it (name-lists, mpints, binary packets, KEXINIT, DH/GEX messages, key blobs, certificates, banner) + differential correspondence + independent Python RFC encoder/decoder vs the real code',
+        text=("54 theorems (CpProps/C07.lean): padding rule (4..255, total multiple of 8, packet_length counts padding-length byte, "
+              "payload and padding) for every payload length; name-list compose = RFC string of comma-joined names and parse of "
+              "an RFC name-list recovers the names in order with unknown names preserved; binary packet compose = "
+              "Spec.binaryPacket, round trip, LenBound/Positive/SelfDelim/PrefixReject and n = 4 + packet_length for any message "
+              "codec and for the three real record classes; KEXINIT field order (regenerated from the code), round trip and "
+              "compose = Spec.encodeKexInit; DH/GEX/disconnect/unimplemented/newkeys messages; RSA/DSS/Ed25519 key blobs; "
+              "certificate options; identification string compose = RFC form with the 255-byte limit and round trip. Statements "
+              "that are false of the code are kept visible with kernel-checked witnesses (certificate option data not wrapped "
+              "in a string: known finding). Every generated object is composed by code and model and by an independent "
+              "reference encoder written from the RFC text, and parsed back."),
+        design='Appendix B (SSH)', note=CLS_NOTE + " X.509 host keys, v00 certificates and the source-address option are UNMODELLED (oracle only); ECDSA points go through asn1crypto."),
+    'C08': dict(
+        technique='Lean 4 proof that the DNS record model composers equal RFC-level spec encoders, the parsers invert them, and the key tag equals the RFC 4034 Appendix B algorithm + correspondence + independent Python reference',
+        text=("30 theorems (CpProps/C08.lean): domain names (labels, root, length limits), MX, TXT strings, DS, DNSKEY (flags, "
+              "protocol, algorithm, key material per algorithm), RRSIG (fixed part, signer name, signature) compose to the "
+              "RFC 1035/4034 RDATA layout written independently in CpSpec/Dns.lean and parse back; the key tag of the model "
+              "equals the Appendix B sum over the RDATA for odd and even lengths and the B.1 rule for algorithm 1. Deviations "
+              "of the real code that its own tests pin are kept as visible false statements with witnesses (known findings). "
+              "Generated and mutated RDATA run through code and model; a Python reference computes the key tag from the bytes."),
+        design='Appendix B (DNS)', note=CLS_NOTE),
+    'C09': dict(
+        technique='Lean 4 proof that the opportunistic-TLS message models (MySQL, RDP TPKT/COTP/negotiation, OpenVPN, PostgreSQL, LDAP framing) compose to spec-level encoders and parse back with the wire message type + correspondence + independent Python encoders',
+        text=("51 theorems (CpProps/C09.lean): per message class compose = the layout written from the protocol documents in "
+              "CpSpec/Opp.lean (little-endian MySQL fields, split capability flags, null-terminated strings, 3-byte length; TPKT "
+              "length incl. header; X.224 CR/CC with negotiation request/response; OpenVPN opcode/key-id byte, session ids, "
+              "packet-id arrays, 2-byte TCP length; PostgreSQL SSLRequest), round trip with any suffix, and the parsed message "
+              "type is the type on the wire (a confirm is never returned as a request). LDAP goes through asn1crypto: framing "
+              "and result only, by correspondence. Known deviations pinned by the repository tests are known findings."),
+        design='Appendix B (OPP)', note=CLS_NOTE),
+    'C14': dict(
+        technique='Lean 4 proof over a model of the serialisation walk (PyVal -> JSON / Markdown): well-formedness, determinism and faithfulness by structural induction + correspondence on values harvested from the real objects + json.loads / determinism oracles on the real code',
+        text=("20 theorems (CpProps/C14.lean): the JSON rendering of every model value is accepted by the model JSON grammar, "
+              "equal values render identically, byte strings / enumerations / dates / nested vectors / unknown code points all "
+              "have a rendering (totality), Markdown rendering is total and deterministic. Statements false of the code are "
+              "kept visible with witnesses: set iteration order, encoder pinned on the class by the first call, Markdown "
+              "returning non-text and raising inside __str__ (known findings; the repository tests pin them). Every object of "
+              "the harvested corpus and of the generators is serialised twice in different orders and processes, parsed with "
+              "json.loads, and compared with the model output."),
+        design='Appendix B (C14)', note=COMMON_NOTE + " Python's json module and str() of leaf values are trusted; PYTHONHASHSEED is varied across child processes."),
+    'C16': dict(
+        technique='Lean 4 proof that the HASSH preimage of a parsed KEXINIT equals the semicolon-joined name-list strings on the wire and that fingerprints are digest-renderings of the RFC 4253 key blob (digest abstract) + correspondence + hashlib reference from wire bytes',
+        text=("7 theorems (CpProps/C16.lean): hassh_conforms (for every accepted KEXINIT the client and server preimages are "
+              "exactly the wire strings of the selected name-lists joined by ';', order and unknown names preserved; field "
+              "selection regenerated from the code), kexinit_lists_are_wire_strings, key_bytes_is_blob, fingerprint_format for "
+              "any digest function H (SHA256:/SHA1: + base64, MD5: + colon hex, known_hosts = base64 of the blob), base64 and "
+              "hex renderings = RFC 4648 for every byte string. The harness recomputes HASSH and fingerprints with hashlib from "
+              "the wire bytes of generated messages/keys and compares with the library and the model."),
+        design='Appendix B (SSH)', note=CLS_NOTE + " MD5/SHA-1/SHA-256 are abstract functions in the theorems (hashlib trusted)."),
+    'C18': dict(
+        technique='Lean 4 proof over a model of the text scanner and of the component tables regenerated from the code: parse is invariant under an inductive family of RFC-insignificant respellings + correspondence of the scanner and name matching + variant oracle on the real code',
+        text=("44 theorems (CpProps/C18a.lean, C18.lean): scanner level - optional whitespace runs, empty elements, separators; "
+              "table level - matches_rfc (the live name-matching modes equal the RFC rules, no deviation left), "
+              "fields_spelling_invariant: for every table without positional component every combination of whitespace/empty-"
+              "element edits, reordering, unknown directives with fresh names and re-casing of case-insensitive names parses to "
+              "the same result, instantiated for nine live classes; the full statement over all classes is refuted with "
+              "witnesses for the two positional classes (Content-Type, X-XSS-Protection) and the partial kept. The oracle "
+              "generates spellings from the RFC grammars for every listed header/record type and compares parsed objects; header "
+              "blocks are compared field by field with a reference splitter. Quote-unaware splitting is a known finding."),
+        design='Appendix B (C18)', note=COMMON_NOTE + " Component value parsers (URLs, dates, base64) are outside the model; the variant oracle runs on the real code."),
+    'C19': dict(
+        technique='Lean 4 proof of linear tick bounds for an instrumented copy of the model parsers (ticks per loop pass / primitive / table search), of declared-count independence and of bounded class-graph depth + line-event scaling measurements of the real code',
+        text=("29 theorems (CpProps/C19.lean): item loops take at most len+1 passes and never exhaust fuel; a declared count or "
+              "length larger than the data is rejected after constant work (numeric arrays, vectors, opaque); variant walks try "
+              "at most the number of alternatives; TlsRecord constant; every handshake class linear given its payload parser; "
+              "ClientHello <= A*len+B for EVERY input with A, B expressions over the regenerated tables; ServerHello, "
+              "Certificate, handshake variant likewise; the class call graph is acyclic with depth <= 7. On the real code "
+              "interpreter line events are counted (sys.settrace) for 256 scalable input shapes over 81 classes at sizes s..8s "
+              "and for maximal declared counts; events must stay linear and independent of declared values, and within "
+              "40*ticks+400 of the model. Wall-clock effects of C-level slicing/bigint are reported, not decided."),
+        design='Appendix B (C19)', note=COMMON_NOTE + " The tick model covers the TLS classes; other families are measured on the real code only (search, not proof)."),
     'C13': dict(
         technique='Lean 4 proof over the regenerated table of attrs defaults (ownership model) + runtime monitors for observer purity and buffer aliasing on the real code',
         text=("(b) proved: in the ownership model, if no field stores its class-level default object then an in-place edit "
